@@ -67,6 +67,14 @@ var (
 		}
 		return int(i)
 	}}
+	// sizes that are not a multiple of the word size (leaf fields behind the value get unusual offsets)
+	vsInt8 = &ValSpec[int8]{Name: "int8", Make: func(i int) int8 { return int8(i) }, Read: func(v int8) int { return int(v) }}
+	vsTri  = &ValSpec[[3]byte]{Name: "[3]byte", Make: func(i int) [3]byte { return [3]byte{byte(i), byte(i) ^ 0x5a, 0xc3} }, Read: func(v [3]byte) int {
+		if v[1] != v[0]^0x5a || v[2] != 0xc3 {
+			return -1
+		}
+		return int(v[0])
+	}}
 	vsRich = &ValSpec[rich]{Name: "struct{ptr,string,slice}", Make: func(i int) rich {
 		return rich{p: vsPtr.Make(i), s: valString(i), b: []byte(valString(i))}
 	}, Read: func(r rich) int {
@@ -158,7 +166,7 @@ func c18Kinds[V any](vs *ValSpec[V], tier string) []UniverseDef {
 	return out
 }
 
-// C18Registry: every tree kind x seven value types.
+// C18Registry: every tree kind x nine value types.
 func C18Registry(tier string) []UniverseDef {
 	var out []UniverseDef
 	out = append(out, c18Kinds(vsInt, tier)...)
@@ -168,6 +176,8 @@ func C18Registry(tier string) []UniverseDef {
 	out = append(out, c18Kinds(vsEmpty, tier)...)
 	out = append(out, c18Kinds(vsBig, tier)...)
 	out = append(out, c18Kinds(vsRich, tier)...)
+	out = append(out, c18Kinds(vsInt8, tier)...)
+	out = append(out, c18Kinds(vsTri, tier)...)
 	return out
 }
 
